@@ -59,6 +59,7 @@ class FnSpec:
         self.raises = kw.get('raises')          # None: may not raise (beyond declared); list of allowed types
         self.ensures_raises = _clauses(kw.get('ensures_raises'), self.props)
         self.raises_iff = kw.get('raises_iff')     # the call is rejected exactly when this holds in the pre-state
+        self.raises_only_if = kw.get('raises_only_if')   # a necessary condition for rejection (weaker than raises_iff)
         self.raises_modifies = list(kw.get('raises_modifies') or [])   # what a rejected call may still have changed
         self.inline = kw.get('inline', False)   # no contract of its own: callers execute the body
         self.trusted = kw.get('trusted', False)  # contract assumed, body not verified (listed in evidence)
@@ -74,6 +75,8 @@ class FnSpec:
         self.self_cls = kw.get('self_cls')      # verify the body for these receiver classes (default: defining class)
         self.note = kw.get('note', '')
         self.public = kw.get('public', False)
+        self.twins = kw.get('twins')            # lemma programs over two objects of one class: split both alike
+        self.chain = kw.get('chain', False)     # lemma programs: each ensures clause may use the ones before it
 
 
 def klass(name, fields=None, inv=None, bases=None, views=None, setup=None):
